@@ -1,2 +1,272 @@
-(* Props/C12.v -- in progress *)
-From XMT Require Import Base.Prelude Model.Codec Model.DevInfo Proofs.DevInfo.
+(* Props/C12.v -- property theorems for C12: session settings and identity survive every
+   synchronisation path unchanged.  Only statements; every proof is `exact <lemma>`; Print
+   Assumptions under each.
+
+   Model: Model/DevInfo.v.  write_info k s = the bytes Session.writeDeviceInfo(k, w) appends (to
+   a Packet or to a data.NewWriter stream: the same bytes); read_info ops k r = Session.readDeviceInfo
+   (k, r) run by the receiver r over the packet reader (flat_ops, list of remaining bytes) or over
+   the stream reader (stream_ops, src = the list of chunks the successive Read calls of the
+   underlying pipe deliver).  k: 0 hello (registration), 1 migrate (hand-off over the local pipe),
+   2 refresh, 3 sync (settings echo), 4 proxy update, 5 syncMigrate.
+
+   Hypotheses (wf ...) are the documented domains: integers in the range of their Go type, at most
+   255 interfaces and 255 addresses per interface (the counts are ONE byte on the wire), a device
+   ID whose first byte is not zero (ID.Read refuses the empty ID), and for the three kinds that
+   carry the proxy list (hello, migrate, refresh) a writer that is an active client session
+   (writeProxyData writes nothing otherwise).  no_empty sr: every Read of the pipe returns at
+   least one byte (io.Reader's contract discourages (0, nil)). *)
+From XMT Require Import Base.Prelude Model.Codec Proofs.Codec Model.DevInfo Proofs.DevInfo.
+
+(* ---- every kind, both readers, every split ------------------------------------------------- *)
+(* the packet reader: whatever follows the message (rest) is left untouched *)
+Theorem C12_devinfo_roundtrip_packet :
+  forall k s r rest, wf k s = true ->
+  read_info flat_ops k r (write_info k s ++ rest) = Ok ((absorb k s r, carried_proxies k s), rest).
+Proof. exact (fun k s r rest H => devinfo_roundtrip_flat k s r H rest). Qed.
+Print Assumptions C12_devinfo_roundtrip_packet.
+
+(* the stream reader, for EVERY way the pipe splits the bytes into non-empty short reads *)
+Theorem C12_devinfo_roundtrip_stream :
+  forall k s r, wf k s = true ->
+  forall sr rest, no_empty sr -> concat sr = write_info k s ++ rest ->
+  exists sr', read_info stream_ops k r sr = Ok ((absorb k s r, carried_proxies k s), sr') /\
+              concat sr' = rest /\ no_empty sr'.
+Proof. exact devinfo_roundtrip_stream. Qed.
+Print Assumptions C12_devinfo_roundtrip_stream.
+
+(* on ANY input, valid or not, the stream reader returns what the packet reader returns on the
+   concatenation (same value and same unread remainder, or both fail, or both panic) *)
+Theorem C12_stream_reader_agrees_with_packet_reader :
+  forall k r sr, no_empty sr ->
+  match read_info flat_ops k r (concat sr), read_info stream_ops k r sr with
+  | Ok (a, rest), Ok (a', sr') => a = a' /\ concat sr' = rest /\ no_empty sr'
+  | Err _, Err _ => True
+  | Panic, Panic => True
+  | _, _ => False
+  end.
+Proof. exact read_info_agree. Qed.
+Print Assumptions C12_stream_reader_agrees_with_packet_reader.
+
+(* ---- the six kinds, hypotheses and result spelled out (reads_back = both readers, every split) *)
+(* registration *)
+Theorem C12_devinfo_roundtrip_hello :
+  forall s r, wf_machine (s_dev s) = true -> wf_settings s = true -> s_client s = true -> wf_proxy_opt (s_proxy s) = true ->
+  reads_back (read_info flat_ops infoHello r) (read_info stream_ops infoHello r) (write_info infoHello s)
+             (absorb_settings s (set_dev r (s_dev s)), proxies_of true s).
+Proof. exact devinfo_roundtrip_hello. Qed.
+Print Assumptions C12_devinfo_roundtrip_hello.
+
+(* migration hand-off: identity, settings, proxy list, key material *)
+Theorem C12_devinfo_roundtrip_migrate :
+  forall s r, wf_id (s_id s) = true -> wf_settings s = true -> s_client s = true -> wf_proxy_opt (s_proxy s) = true ->
+  wf_keys (s_keys s) = true ->
+  reads_back (read_info flat_ops infoMigrate r) (read_info stream_ops infoMigrate r) (write_info infoMigrate s)
+             (set_keys (absorb_settings s (set_id r (s_id s))) (s_keys s), proxies_of true s).
+Proof. exact devinfo_roundtrip_migrate. Qed.
+Print Assumptions C12_devinfo_roundtrip_migrate.
+
+Theorem C12_devinfo_roundtrip_refresh :
+  forall s r, wf_machine (s_dev s) = true -> wf_settings s = true -> s_client s = true -> wf_proxy_opt (s_proxy s) = true ->
+  reads_back (read_info flat_ops infoRefresh r) (read_info stream_ops infoRefresh r) (write_info infoRefresh s)
+             (absorb_settings s (set_dev r (s_dev s)), proxies_of true s).
+Proof. exact devinfo_roundtrip_refresh. Qed.
+Print Assumptions C12_devinfo_roundtrip_refresh.
+
+(* settings sync: the echo of MvTime / MvProfile and the SvResync notice *)
+Theorem C12_devinfo_roundtrip_sync :
+  forall s r, wf_settings s = true ->
+  reads_back (read_info flat_ops infoSync r) (read_info stream_ops infoSync r) (write_info infoSync s) (absorb_settings s r, []).
+Proof. exact devinfo_roundtrip_sync. Qed.
+Print Assumptions C12_devinfo_roundtrip_sync.
+
+(* proxy update: the receiver's own settings are untouched, the list is returned *)
+Theorem C12_devinfo_roundtrip_proxy :
+  forall s r, s_client s = true -> wf_proxy_opt (s_proxy s) = true ->
+  reads_back (read_info flat_ops infoProxy r) (read_info stream_ops infoProxy r) (write_info infoProxy s) (r, proxies_of false s).
+Proof. exact devinfo_roundtrip_proxy. Qed.
+Print Assumptions C12_devinfo_roundtrip_proxy.
+
+(* the result a migrated client reports (MvMigrate): device details and settings, no proxy list *)
+Theorem C12_devinfo_roundtrip_syncmigrate :
+  forall s r, wf_machine (s_dev s) = true -> wf_settings s = true ->
+  reads_back (read_info flat_ops infoSyncMigrate r) (read_info stream_ops infoSyncMigrate r) (write_info infoSyncMigrate s)
+             (absorb_settings s (set_dev r (s_dev s)), []).
+Proof. exact devinfo_roundtrip_syncmigrate. Qed.
+Print Assumptions C12_devinfo_roundtrip_syncmigrate.
+
+(* ---- what "reproduced" means field by field -------------------------------------------------- *)
+(* sleep and jitter exactly; the kill date and the work hours as the wire carries them *)
+Theorem C12_received_settings :
+  forall k s r, k <> infoProxy ->
+  let r' := absorb k s r in
+  s_jitter r' = s_jitter s /\ s_sleep r' = s_sleep s /\
+  s_kill r' = norm_kill (s_kill s) /\ s_work r' = norm_work_opt (s_work s).
+Proof. exact absorbed_settings. Qed.
+Print Assumptions C12_received_settings.
+
+(* the kill date travels as Unix seconds with 0 = none: one-second resolution; the zero Time and
+   Unix second 0 both arrive as "no kill date" *)
+Theorem C12_kill_date_on_the_wire :
+  forall t, wf_time t = true ->
+  norm_kill t = if is_zero_time t || (t_sec t =? 0) then zero_time else mkTime (t_sec t) 0.
+Proof. exact norm_kill_spec. Qed.
+Print Assumptions C12_kill_date_on_the_wire.
+
+(* for the settings a session can hold after any synchronisation (kill date none or whole seconds
+   other than Unix 0; work hours none or not Empty()) all four arrive UNCHANGED *)
+Theorem C12_received_settings_exact :
+  forall k s r, k <> infoProxy -> wf_settings s = true -> exact_settings s = true ->
+  let r' := absorb k s r in
+  s_jitter r' = s_jitter s /\ s_sleep r' = s_sleep s /\ s_kill r' = s_kill s /\ s_work r' = s_work s.
+Proof. exact absorbed_settings_exact. Qed.
+Print Assumptions C12_received_settings_exact.
+
+(* device details for hello / refresh / syncMigrate, identity and key material for migrate; what
+   a kind does not carry stays as it was *)
+Theorem C12_received_identity :
+  forall k s r,
+  let r' := absorb k s r in
+  (has_device k = true -> s_dev r' = s_dev s) /\
+  (k = infoMigrate -> s_id r' = s_id s /\ s_keys r' = s_keys s) /\
+  (has_device k = false -> s_dev r' = s_dev r) /\
+  (k <> infoMigrate -> s_id r' = s_id r /\ s_keys r' = s_keys r).
+Proof. exact absorbed_identity. Qed.
+Print Assumptions C12_received_identity.
+
+(* ---- component codecs ---------------------------------------------------------------------- *)
+Theorem C12_machine_roundtrip :
+  forall m, wf_machine m = true -> reads_back (read_machine flat_ops) (read_machine stream_ops) (write_machine m) m.
+Proof. exact machine_roundtrip. Qed.
+Print Assumptions C12_machine_roundtrip.
+
+Theorem C12_network_roundtrip :
+  forall n, len n <= 255 -> forallb wf_dev n = true ->
+  reads_back (read_counted flat_ops (read_dev flat_ops)) (read_counted stream_ops (read_dev stream_ops)) (write_net n) n.
+Proof. exact network_roundtrip. Qed.
+Print Assumptions C12_network_roundtrip.
+
+Theorem C12_address_roundtrip :
+  forall a, wf_addr a = true -> reads_back (read_addr flat_ops) (read_addr stream_ops) (write_addr a) a.
+Proof. exact address_roundtrip. Qed.
+Print Assumptions C12_address_roundtrip.
+
+Theorem C12_workhours_roundtrip :
+  forall w, wf_workhours w = true -> reads_back (read_workhours flat_ops) (read_workhours stream_ops) (write_workhours w) w.
+Proof. exact workhours_roundtrip. Qed.
+Print Assumptions C12_workhours_roundtrip.
+
+Theorem C12_keypair_roundtrip :
+  forall k, wf_keys k = true -> reads_back (read_keys flat_ops) (read_keys stream_ops) (write_keys k) k.
+Proof. exact keypair_roundtrip. Qed.
+Print Assumptions C12_keypair_roundtrip.
+
+(* the reader KeyPair.Unmarshal had before the repair (one Read call per key) refuses a
+   well-formed key triple delivered in two reads; the repaired reader accepts it *)
+Theorem C12_keypair_single_read_refuted :
+  exists k sr, wf_keys k = true /\ no_empty sr /\ concat sr = write_keys k /\
+               read_keys_old sr = Err ErrUnexpectedEOF /\ read_keys stream_ops sr = Ok (k, []).
+Proof. exact keys_single_read_refuted. Qed.
+Print Assumptions C12_keypair_single_read_refuted.
+
+(* ---- a change ordered on the server --------------------------------------------------------
+   order: SetDuration / SetKillDate / SetWorkHours on the server-side Session, or a Task built by
+   task.Duration / task.KillDate / task.WorkHours.  exchange srv cli o = the setter builds the
+   MvTime packet and updates the server's view; the client's muxHandleInternal applies it and
+   echoes its settings (infoSync); the server's handleInfoResult absorbs the echo.
+   wf_order: a duration is an int64, a kill date a time.Time, work-hours fields are bytes. *)
+
+(* the exchange completes for every order except work hours that SetWorkHours itself refuses *)
+Theorem C12_exchange_completes :
+  forall srv cli o, wf_settings srv = true -> wf_settings cli = true -> wf_order o = true ->
+  (forall w, o = OSetWork (Some w) -> work_empty w = true \/ work_verify w = true) ->
+  exists pkt cli1 srv2, exchange srv cli o = Ok (pkt, cli1, srv2).
+Proof. exact exchange_completes. Qed.
+Print Assumptions C12_exchange_completes.
+
+(* the client afterwards = apply_order (Model/DevInfo.v: jitter -1 keeps, below 0 gives 0, above 100
+   gives 100; sleep <= 0 keeps; kill date none / Unix 0 clears, else whole seconds; empty or nil work
+   hours clear).  SetDuration transmits the server's resulting jitter AND sleep, so for it the two
+   views must have agreed on these two before and the jitter must be a percentage; the other five
+   orders need no such hypothesis. *)
+Theorem C12_settime_takes_effect :
+  forall srv cli o pkt cli1 srv2,
+  wf_settings srv = true -> wf_settings cli = true -> wf_order o = true ->
+  (match o with
+   | OSetDuration _ _ => s_jitter srv = s_jitter cli /\ s_sleep srv = s_sleep cli /\ 0 <= s_jitter cli <= 100
+   | _ => True end) ->
+  exchange srv cli o = Ok (pkt, cli1, srv2) ->
+  cli1 = apply_order cli o.
+Proof. exact settime_takes_effect. Qed.
+Print Assumptions C12_settime_takes_effect.
+
+(* without the hypothesis: the client ends with what the server's view held (effect) *)
+Theorem C12_settime_effect_general :
+  forall srv cli o pkt cli1 srv2,
+  wf_settings srv = true -> wf_settings cli = true -> wf_order o = true ->
+  exchange srv cli o = Ok (pkt, cli1, srv2) ->
+  cli1 = effect srv cli o /\ exists srv1, server_set srv o = Ok (srv1, pkt) /\ srv2 = absorb infoSync cli1 srv1.
+Proof. exact exchange_spec. Qed.
+Print Assumptions C12_settime_effect_general.
+
+(* ordered values inside the documented domain are applied EXACTLY on the client and in the
+   server's view, whatever the two held before: jitter 0..100, sleep > 0, kill date none or whole
+   seconds (not Unix 0), work hours nil or not Empty() *)
+Theorem C12_ordered_values_applied_exactly :
+  forall srv cli o pkt cli1 srv2,
+  wf_settings srv = true -> wf_settings cli = true -> wf_order o = true ->
+  exchange srv cli o = Ok (pkt, cli1, srv2) ->
+  match o with
+  | OSetDuration t j | OTaskDuration t j =>
+    (0 <= j <= 100 -> s_jitter cli1 = j /\ s_jitter srv2 = j) /\ (0 < t -> s_sleep cli1 = t /\ s_sleep srv2 = t)
+  | OSetKill k | OTaskKill k => exact_kill k = true -> s_kill cli1 = k /\ s_kill srv2 = k
+  | OSetWork w => exact_work w = true -> s_work cli1 = w /\ s_work srv2 = w
+  | OTaskWork w => work_empty w = false -> s_work cli1 = Some w /\ s_work srv2 = Some w
+  end.
+Proof. exact ordered_values_applied_exactly. Qed.
+Print Assumptions C12_ordered_values_applied_exactly.
+
+(* after the echo is absorbed the server's view is the client's, as the wire carries it ... *)
+Theorem C12_server_view_after_echo :
+  forall srv cli o pkt cli1 srv2,
+  wf_settings srv = true -> wf_settings cli = true -> wf_order o = true ->
+  exchange srv cli o = Ok (pkt, cli1, srv2) ->
+  s_jitter srv2 = s_jitter cli1 /\ s_sleep srv2 = s_sleep cli1 /\
+  s_kill srv2 = norm_kill (s_kill cli1) /\ s_work srv2 = norm_work_opt (s_work cli1).
+Proof. exact server_view_after. Qed.
+Print Assumptions C12_server_view_after_echo.
+
+(* ... and EQUAL to it when the client's kill date / work hours were representable before *)
+Theorem C12_server_view_equals_client :
+  forall srv cli o pkt cli1 srv2,
+  wf_settings srv = true -> wf_settings cli = true -> wf_order o = true -> exact_settings cli = true ->
+  exchange srv cli o = Ok (pkt, cli1, srv2) ->
+  settings_eqb srv2 cli1 = true.
+Proof. exact server_view_equals_client. Qed.
+Print Assumptions C12_server_view_equals_client.
+
+(* ---- non-vacuity ---------------------------------------------------------------------------
+   a concrete client session (two interfaces, a 300-byte host name, kill date, work hours, an
+   active proxy, keys) satisfies wf for all six kinds and exact_settings; its settings differ from
+   the receiver's; all six messages are read back (packet reader, and 1-byte reads of the stream
+   reader) with 3 trailing bytes left; orders complete with the ordered values, and work hours that
+   fail Verify are refused by the setter *)
+Example C12_nonvacuous_session :
+  forallb (fun k => wf k ex_session) [0;1;2;3;4;5] = true /\ exact_settings ex_session = true /\
+  wf_settings ex_receiver = true /\
+  settings_eqb ex_session ex_receiver = false /\
+  forallb (fun k => robs_eqb (robs_of len (read_info flat_ops k ex_receiver (write_info k ex_session ++ [238;0;1])))
+                             (Ok (absorb k ex_session ex_receiver, carried_proxies k ex_session, 3))) [0;1;2;3;4;5] = true /\
+  forallb (fun k => robs_eqb (robs_of src_len (read_info stream_ops k ex_receiver (split_bytes (SEach 1) (write_info k ex_session ++ [238;0;1]))))
+                             (Ok (absorb k ex_session ex_receiver, carried_proxies k ex_session, 3))) [0;1;2;3;4;5] = true.
+Proof. exact ex_session_wf. Qed.
+Print Assumptions C12_nonvacuous_session.
+
+Example C12_nonvacuous_order :
+  wf_order (OSetDuration 30000000000 50) = true /\
+  (exists pkt cli1 srv2, exchange ex_receiver ex_session (OSetDuration 30000000000 50) = Ok (pkt, cli1, srv2) /\
+     s_jitter cli1 = 50 /\ s_sleep cli1 = 30000000000 /\ settings_eqb srv2 cli1 = true /\ settings_eqb cli1 ex_session = false) /\
+  (exists pkt cli1 srv2, exchange ex_receiver ex_session (OSetWork (Some (mkWork 0 8 0 0 0))) = Ok (pkt, cli1, srv2) /\
+     s_work cli1 = Some (mkWork 0 8 0 0 0) /\ settings_eqb srv2 cli1 = true) /\
+  exchange ex_receiver ex_session (OSetWork (Some (mkWork 1 24 0 0 0))) = Err ErrVerify.
+Proof. exact ex_order. Qed.
+Print Assumptions C12_nonvacuous_order.
